@@ -106,6 +106,7 @@ def run(chk):
     check_cases(chk, corpus)
     n = 1200 if chk.tier == "quick" else 20000
     check_cases(chk, codec.gen_cases(chk, n, "C06"))
+    check_cases(chk, codec.large_count_cases(chk))
     codec.check_inplace(chk, "C06", 200 if chk.tier == "quick" else 3000)
     check_capture(chk)
     check_container_bytes(chk)
